@@ -25,7 +25,7 @@ try:
         open(p, "w").write(s.replace(old, new))
     if a.patch:
         subprocess.check_call(["patch", "-p1", "-d", d, "-i", os.path.abspath(a.patch)], stdout=subprocess.DEVNULL)
-    r = subprocess.run(["/verif/check", a.prop, "--tier", a.tier, "--repo", d], stdout=subprocess.PIPE, stderr=subprocess.STDOUT)
+    r = subprocess.run(["/verif/check", a.prop, "--tier", a.tier, "--repo", d], stdout=subprocess.PIPE, stderr=subprocess.STDOUT, timeout=int(os.environ.get("MUT_TIMEOUT", "900")))
     out = r.stdout.decode()
     print("\n".join(out.splitlines()[-a.tail:]))
     print("exit", r.returncode)
